@@ -17,21 +17,32 @@ from infretis.classes.orderparameter import OrderParameter
 SCALE = 0.25
 
 
+def order_of(x, scale=SCALE, cv2=False):
+    """order row of site x: [x·scale] or, with an extra collective variable, [x·scale, (x·scale)²] — dyadic for
+    scale 1/4 (at most four decimals) and integer for scale 1: exact at the six decimals of order.txt"""
+    v = float(x) * scale
+    return [v, v * v] if cv2 else [v]
+
+
 class LatticeOP(OrderParameter):
     """order parameter = lattice site / 4"""
 
-    def __init__(self):
+    def __init__(self, scale=SCALE, cv2=False):
         super().__init__(description="lattice position / 4", velocity=False)
+        self.scale = scale
+        self.cv2 = cv2
 
     def calculate(self, system):
-        return [float(system.pos[0][0]) * SCALE]
+        return order_of(system.pos[0][0], self.scale, self.cv2)
 
 
 class LatticeEngine(EngineBase):
     """Lazy symmetric walk on the integers (stay with probability 1/4) with a reflecting wall."""
 
-    def __init__(self, timestep=1.0, subcycles=1, wall=-6, temperature=1.0):
+    def __init__(self, timestep=1.0, subcycles=1, wall=-6, temperature=1.0, scale=SCALE, cv2=False):
         super().__init__("lattice walk", timestep, subcycles)
+        self.scale = scale
+        self.cv2 = cv2
         self.ext = "lat"
         self.wall = wall
         self.name = "lattice"
@@ -78,7 +89,7 @@ class LatticeEngine(EngineBase):
         status = ""
         for i in range(path.maxlen):
             xs.append(x)
-            snapshot = {"order": [float(x) * SCALE], "config": (traj_file, i), "vel_rev": reverse}
+            snapshot = {"order": order_of(x, self.scale, self.cv2), "config": (traj_file, i), "vel_rev": reverse}
             pp = self.snapshot_to_system(system, snapshot)
             status, success, stop, _ = self.add_to_path(path, pp, left, right)
             if stop:
